@@ -281,5 +281,5 @@ func encoderByteOrder(c *Ctx, r *Report, rule string) {
 			r.check(ok, rule, key, c.pos(ci.Pos()), "written in the byte order the caller asked for (encoder.arch)", "a multi-byte value is written by "+fn.Name()+" in byte order "+why+" instead of the encoder's: with the other byte order requested the definition still announces that order, and the decoder reads the value byte-swapped")
 		}
 	}
-	r.need("multi-byte writes in the record writers", n, 10)
+	r.need("multi-byte writes in the record writers", n, 5)
 }
